@@ -4,8 +4,8 @@ import os
 import re
 import vlib
 
-CLASSES_Q = ["IntArray", "FloatArray", "DoubleArray", "ShortArray", "UnsignedCharArray", "V3fArray"]
-CLASSES_T = CLASSES_Q + ["SignedCharArray", "UnsignedShortArray", "UnsignedIntArray", "V2dArray", "V3dArray", "V2iArray"]
+CLASSES_Q = ["IntArray", "FloatArray", "DoubleArray", "ShortArray", "UnsignedCharArray", "V3fArray", "V3fArray.y", "V2iArray.x"]
+CLASSES_T = CLASSES_Q + ["SignedCharArray", "UnsignedShortArray", "UnsignedIntArray", "V2dArray", "V3dArray", "V2iArray", "V4dArray.w", "V3iArray.z"]
 
 
 def gen_histories(chk, num, depth, seed, cap):
@@ -62,7 +62,7 @@ def run(tier):
     drv = os.path.join(vlib.HARNESS, "py", "rep_pyarray.py")
 
     def rec(c):
-        return vlib.run_to_file([py["python"], drv, hp, c, "--perturb"], os.path.join(chk.work, "trace-%s.ndjson" % c), timeout=3600, env=env)
+        return vlib.run_to_file([py["python"], drv, hp, c, "--perturb"], os.path.join(chk.work, "trace-%s.ndjson" % c.replace(".", "_")), timeout=3600, env=env)
     traces = vlib.parallel(rec, classes)
     # shard each class trace on episode boundaries
     files = []
@@ -77,7 +77,7 @@ def run(tier):
         neps += len(eps)
         nsh = 4
         for i in range(nsh):
-            p = os.path.join(chk.work, "sh-%s-%d.ndjson" % (c, i))
+            p = os.path.join(chk.work, "sh-%s-%d.ndjson" % (c.replace(".", "_"), i))
             with open(p, "w") as g:
                 for e in eps[i::nsh]:
                     g.writelines(e)
